@@ -43,6 +43,20 @@ def structure_case():
         c.check("American binary == 1 once max >= strike", api.implies(api.ge(e(m), 0), api.eq(e(ab), 1)))
         lb = F.bs_lookback_price(s, m, t, v, K)
         c.check("lookback >= European call while max < strike", api.implies(api.lt(e(m), 0), api.ge(e(lb), e(call))))
+        # continuity where the running maximum crosses the strike (value just below the strike, where the price does not
+        # depend on the running maximum, against the value of the other branch at max = strike), symbolic strike
+        s_neg = api.tensor(c, "sneg", (1,), hi=0)
+        m_neg = api.tensor(c, "mneg", (1,), hi=0)
+        if c.mode == "sym":
+            c.assume(api.lt(e(s_neg), 0))
+            c.assume(api.lt(e(m_neg), 0))
+            c.assume(api.ge(e(m_neg), e(s_neg)))
+        else:
+            m_neg = torch.maximum(m_neg, s_neg) * 0.5
+        c.check("lookback continuous where the running max crosses the strike",
+                api.eq(e(F.bs_lookback_price(s_neg, m_neg, t, v, K)), e(F.bs_lookback_price(s_neg, s_neg * 0, t, v, K)), tol=1e-6))
+        c.check("American binary continuous where the running max crosses the strike (value 1 at spot = strike)",
+                api.eq(e(F.bs_american_binary_price(s_neg * 0, m_neg, t, v)), 1, tol=1e-9))
         c.control("control:call - put = S", api.eq(e(call) - e(put), S))
         c.control("control:American binary <= European binary", api.le(e(ab), e(bc)))
 
